@@ -26,7 +26,8 @@ os.environ.setdefault("YOWSUP_VERIF", "1")
 # ---------------------------------------------------------------------------------------------
 # scratch directory (profiles, sqlite files, crash children); removed at exit
 _SCRATCH_BASE = "/dev/shm" if os.path.isdir("/dev/shm") and os.access("/dev/shm", os.W_OK) else None
-SCRATCH = tempfile.mkdtemp(prefix="yowverif-", dir=_SCRATCH_BASE)
+_parent = os.environ.get("VERIF_SCRATCH_PARENT")
+SCRATCH = tempfile.mkdtemp(prefix="yowverif-", dir=_parent if _parent and os.path.isdir(_parent) else _SCRATCH_BASE)
 _OWNER_PID = os.getpid()
 
 
